@@ -234,8 +234,10 @@ class LintedDir:
                     for v_dict in record["violations"]:
                         if v_dict.get("fixes", []):
                             # We're changing a violating with fixes, to one without,
-                            # so we need to increment the cache value.
-                            self.num_unfixable_lint_errors += 1
+                            # so we need to increment the cache value. Warnings are
+                            # never counted as unfixable errors (see `add()`).
+                            if not v_dict.get("warning"):
+                                self.num_unfixable_lint_errors += 1
                             v_dict["fixes"] = []
             # Filter the full versions if present.
             for linted_file in self.files:
